@@ -317,7 +317,7 @@ def check_c04(tier):
     meta = load_cases("Layouts_quick.cfg" if tier == "quick" else "Layouts_thorough.cfg")
     meta_chain = load_cases("Layouts_chain.cfg")
 
-    def build(ctx):
+    def build_round(ctx):
         ops, tags = goto_ops(ctx, ctx.case["goto"], all_cols=False)
         for slot, idx, it in ctx.all_defs():
             ops.append({"op": "refs", "path": UNI.paths[slot], "line1": ctx.files[slot].item_line[idx], "name": it["name"]})
@@ -328,7 +328,29 @@ def check_c04(tier):
         tags.append(("snapshot",))
         return ops, tags
 
+    def build(ctx):
+        ops, tags = build_round(ctx)
+        # second round after the index was rebuilt in place: every file analysed again with the SAME text,
+        # either as an unchanged didChange (cleanup path) or as the workspace scan's visit (fresh path,
+        # scanner.rs:186) arriving after the editor's -- each usage must still be listed exactly once
+        h = sum(map(ord, shape_key(ctx.case) + "".join(ctx.case["order"]))) % 4
+        if h in (0, 1):
+            for slot in reversed(ctx.case["order"]):
+                ops.append({"op": "analyze", "path": UNI.paths[slot], "text": ctx.files[slot].text, "fresh": h == 1})
+                tags.append(("reindex", "fresh" if h == 1 else "cleanup"))
+            o2, t2 = build_round(ctx)
+            ops += o2
+            tags += t2
+        return ops, tags
+
     def judge(ctx, answers, n):
+        cut = [i for i, (t, _) in enumerate(answers) if t[0] == "reindex"]
+        if not cut:
+            return judge_round(ctx, answers, n, None)
+        judge_round(ctx, answers[:cut[0]], n, None)
+        judge_round(ctx, answers[cut[-1] + 1:], n, answers[cut[0]][0][1])
+
+    def judge_round(ctx, answers, n, reindexed):
         case = ctx.case
         goto_actual = {}
         for tag, ans in answers:
@@ -341,7 +363,7 @@ def check_c04(tier):
                 D = (slot, idx)
                 V.count()
                 ex = {"shape": case["shape"], "order": case["order"], "def": [slot, idx], "answer": ans,
-                      "files": ctx.texts()}
+                      "files": ctx.texts(), "reindexed_before_round": reindexed}
                 if not isinstance(ans, list):
                     V.violation(ex, "definition not found by line/name or panic")
                     continue
